@@ -807,3 +807,57 @@ def r9_normalize_sentinel(ctx):
 
 
 RULES += [r9_normalize_sentinel]
+
+
+def r1e_bound_division(ctx):
+    ctx.rule("C08.r1e", "bound<Number>::operator/: a FINITE bound divided by an INFINITE one is the finite bound 0 (the quotient of a "
+             "number by an arbitrarily large divisor tends to 0); returning the infinite divisor makes every corner quotient of an "
+             "interval division by an unbounded divisor infinite ([4,4] / [1,+oo] = [4,+oo])", floor=1)
+    fs = [f for f in ctx.db.fns(II, name="operator/") if (f.get("cpk") or "").endswith("::bound") and len(f.get("params", [])) == 1]
+    if not ctx.need(fs, "bound::operator/", "C08.r1e"):
+        return
+    seen = set()
+    for fn in fs:
+        body = fn["body"]
+        xid = fn["params"][0]["id"]
+        g = paths.guards(body)
+
+        def a_this_finite(c):
+            c = strip(c)
+            if is_call(c, name="is_finite") and (c.get("o") is None or is_this(deref(c.get("o")))):
+                return 1
+            if is_call(c, name="is_infinite") and (c.get("o") is None or is_this(deref(c.get("o")))):
+                return -1
+            return 0
+
+        def a_x_infinite(c):
+            c = strip(c)
+            o = strip(c.get("o")) if isinstance(c, dict) and c.get("o") is not None else None
+            if isinstance(o, dict) and o.get("k") == "ref" and o.get("id") == xid:
+                if is_call(c, name="is_infinite"):
+                    return 1
+                if is_call(c, name="is_finite"):
+                    return -1
+            return 0
+        n = 0
+        for r in rets(body):
+            gs = g.get(id(r), ())
+            if guard_truth(gs, a_this_finite, body) is True and guard_truth(gs, a_x_infinite, body) is True:
+                n += 1
+                v = r.get("v")
+                ctors = [c for c in walk(v) if c.get("k") == "ctor" and callee(c) and callee(c)["name"] == "bound" and len(c.get("a", [])) == 2]
+                fin0 = any(isinstance(strip(c["a"][0]), dict) and strip(c["a"][0]).get("v") == "false" and
+                           any(y.get("k") == "lit" and y.get("v") == "0" for y in walk(c["a"][1])) and
+                           not any(y.get("k") in ("ref", "mem", "this") for y in walk(c["a"][1])) for c in ctors)
+                if fin0:
+                    ctx.ok("finite / infinite = 0", fn, r)
+                else:
+                    ctx.bad("bound::operator/ returns `%s` for a finite bound divided by an infinite one; the quotient tends to 0, so "
+                            "the corner quotients of [4,4] / [1,+oo] become {4, +oo} and the result [4,+oo] misses 4/2 = 2" %
+                            src(v)[:40], fn, r, sig="bound-div-finite-by-infinite")
+        if n == 0 and fn.get("cls") not in seen:
+            ctx.skipped("C08.r1e|%s" % fn.get("cls"), rid="C08.r1e")
+        seen.add(fn.get("cls"))
+
+
+RULES += [r1e_bound_division]
